@@ -283,7 +283,8 @@ def run_seq(name, mi, idx, raws, noalias, memtrace, tier, seed, P, res, forced=N
                 res["untranslatable"] += 1  # single instruction does not apply: C17's subject
                 return
             Rregs, Rmem, Racc = compose(steps, c)
-            side = (noalias_side(Racc) if noalias else []) + list(compose.defs)
+            side_alias = noalias_side(Racc) if noalias else []
+            side = side_alias + list(compose.defs)
             info = dict(cpu=name, mode=mi, raws=[r.hex() for r in raws], noaliasing=noalias, memtrace=memtrace, mns=mns)
             # ---- (a) block map, all states
             try:
@@ -306,7 +307,11 @@ def run_seq(name, mi, idx, raws, noalias, memtrace, tier, seed, P, res, forced=N
                 except (TS.WidthError, TS.TranslateError):
                     continue
                 RS, RSmem, RSacc = compose(steps, c, St.regs, St.mem)
-                sideS = (noalias_side(RSacc) if noalias else []) + list(compose.defs)
+                # the no-overlap assumption is about the SYMBOLIC pointers of the block map: take it from the
+                # all-symbolic composition and instantiate it with the state (two different symbolic pointers
+                # that the state makes equal are outside the claim)
+                psS = subst_pairs(c, St.regs, St.mem)
+                sideS = [z3.substitute(x, *psS) for x in side_alias] + list(compose.defs)
                 routes = []
                 try:
                     routes.append(("apply", S >> M, False))
